@@ -830,10 +830,19 @@ func main() {
 	r := cq.Rand()
 	var scs []*scenario
 	var rqs []*rqCase
+	var rds []*rdCase
+	var lvs []*lvCase
+	config.PrefetchRate = 768 * 1024
 	switch os.Args[1] {
 	case "gen":
 		for i := 0; i < *n; i++ {
-			if *prop == "C10" {
+			if *prop == "C02" {
+				if i%4 == 3 {
+					lvs = append(lvs, genLv(r, i))
+				} else {
+					rds = append(rds, genRd(r, i))
+				}
+			} else if *prop == "C10" {
 				if i%2 == 0 {
 					rqs = append(rqs, genRq(r, i))
 				} else {
@@ -853,7 +862,20 @@ func main() {
 			Kind string `json:"kind"`
 		}
 		json.Unmarshal(wrap.Case, &probe)
-		if probe.Kind == "rq" {
+		if probe.Kind == "rd" {
+			var c rdCase
+			json.Unmarshal(wrap.Case, &c)
+			c.ID = 0
+			rds = append(rds, &c)
+		} else if probe.Kind == "lv" {
+			for i := 0; i < 5; i++ {
+				var c lvCase
+				json.Unmarshal(wrap.Case, &c)
+				c.Reads, c.LeftPrios, c.LeftReader = nil, 0, 0
+				c.ID = i
+				lvs = append(lvs, &c)
+			}
+		} else if probe.Kind == "rq" {
 			var c rqCase
 			json.Unmarshal(wrap.Case, &c)
 			c.ID = 0
@@ -881,6 +903,23 @@ func main() {
 			distinct[fmt.Sprintf("rq/%d/%v/%v", c.ID, o.Snap, o.Closed)] = true
 		}
 		naudits += len(c.Ops)
+	}
+	var rdterms, lvterms []string
+	for _, c := range rds {
+		runRd(c)
+		rdterms = append(rdterms, rdTerm(c))
+		for _, o := range c.Ops {
+			ops["rd/"+o.Op]++
+			distinct[fmt.Sprintf("rd/%d/%d/%d/%d", c.ID, o.Res, o.Err, o.Pos)] = true
+		}
+		naudits += len(c.Ops)
+	}
+	for _, c := range lvs {
+		runLv(c)
+		lvterms = append(lvterms, lvTerm(c))
+		ops["lv/"+c.Mode]++
+		naudits += len(c.Reads)
+		distinct[fmt.Sprintf("lv/%d/%v", c.ID, c.Reads)] = true
 	}
 	for _, sc := range scs {
 		s := newSwarm(sc)
@@ -914,6 +953,14 @@ func main() {
 		b, _ := json.Marshal(sc)
 		jf.Write(append(b, '\n'))
 	}
+	for _, c := range rds {
+		b, _ := json.Marshal(c)
+		jf.Write(append(b, '\n'))
+	}
+	for _, c := range lvs {
+		b, _ := json.Marshal(c)
+		jf.Write(append(b, '\n'))
+	}
 	jf.Close()
 	nshard := 0
 	writeShards := func(terms []string, per int, header, typ, defs string) {
@@ -930,7 +977,11 @@ func main() {
 			nshard++
 		}
 	}
-	if *prop == "C10" {
+	if *prop == "C02" {
+		h := "From Storrent Require Import Base.Bytes Model.Reader Check.ReaderCheck.\nOpen Scope Z_scope.\n"
+		writeShards(rdterms, 12, h, "rdcase", "Definition BC := Eval vm_compute in bad_corr_rd cases.\nDefinition BM := Eval vm_compute in bad_monitor_rd cases.\nPrint BC. Print BM.\n")
+		writeShards(lvterms, 20, h, "lvcase", "Definition BM := Eval vm_compute in bad_monitor_lv cases.\nPrint BM.\n")
+	} else if *prop == "C10" {
 		h := "From Storrent Require Import Base.Bytes Model.Requested Check.RequestedCheck.\nOpen Scope N_scope.\n"
 		writeShards(rterms, 10, h, "rqcase", "Definition BC := Eval vm_compute in bad_corr_rq cases.\nDefinition BM := Eval vm_compute in bad_monitor_rq cases.\nPrint BC. Print BM.\n")
 		writeShards(terms, 8, h, "wcase", "Definition BM := Eval vm_compute in bad_monitor_w cases.\nPrint BM.\n")
@@ -950,6 +1001,9 @@ func main() {
 		}
 	}
 	rule := "one evaluation = one audit of Torrent.inFlight / Torrent.available against the requests held and pieces advertised by the connected peers, at a quiescent point of a scenario run on the real event handler with real peer goroutines and scripted remote peers; distinct = new (scenario, counters, number of peers)"
+	if *prop == "C02" {
+		rule = "one evaluation = one Seek or Read on a real tor.Reader over a fully available torrent (result, error, position and the bytes compared with the torrent's content), or one Read of a liveness scenario (honest seed connected, pieces evicted between reads, context cancelled, torrent deleted, reader closed) with a 6 s watchdog; distinct = new (case, result, error, position)"
+	}
 	if *prop == "C10" {
 		rule = "one evaluation = one operation on a real tor.Requested (return values, entries and the closed state of every channel handed out compared with the model), or one audit at a quiescent point of a scenario on the real event handler (which waiting consumers have been woken, which pieces are verified, Torrent.requested against the priorities the consumers hold); distinct = new (case, entries, closed channels)"
 	}
